@@ -64,6 +64,15 @@ Proof.
   - inversion Hl; subst. apply IH with m; auto. intros y Hy. apply Hi. simpl; auto.
 Qed.
 
+Lemma NoDup_snoc : forall A (l : list A) a, NoDup l -> ~ In a l -> NoDup (l ++ [a]).
+Proof.
+  induction l as [|x l IH]; intros a Hnd Hin; simpl.
+  - constructor; auto.
+  - inversion Hnd; subst. constructor.
+    + rewrite in_app_iff. simpl. intros [H|[H|[]]]; auto. subst. apply Hin. simpl; auto.
+    + apply IH; auto. intro H. apply Hin. simpl; auto.
+Qed.
+
 Lemma aget_filter_key : forall V (p : Z -> bool) k (l : list (Z * V)),
   aget k (filter (fun e => p (fst e)) l) = if p k then aget k l else None.
 Proof.
@@ -310,7 +319,7 @@ Section Proofs.
       destruct (Nat.eqb_spec (shard_of (length shs) r) (shard_of (length shs) (i_ref x))) as [Eq|Ne].
       + rewrite Eq, En. simpl option_map. cbv iota. rewrite Hp, fr_app. simpl plist.
         change (fr r []) with (@nil item). rewrite app_nil_r. reflexivity.
-      + assert (fr r [x] = []) as ->.
+      + simpl plist. assert (fr r [x] = []) as ->.
         { apply fr_none. intros y [<-|[]] E. apply Ne. rewrite E. reflexivity. }
         reflexivity.
   Qed.
@@ -417,15 +426,15 @@ Section Proofs.
     destruct o as [ref raw seg|idx|ref t old| |k|k|k oc| |k|k| |n]; simpl.
     - unfold do_store. destruct (relab _); simpl; auto.
     - unfold do_reset. simpl; auto.
-    - unfold do_lookup. destruct (pend s) eqn:Ep; auto.
-      destruct old; simpl; [rewrite Ep in HI; auto|].
+    - unfold do_lookup. destruct (pend s) eqn:Ep; [intros _ _; rewrite Ep; exact HI|].
+      destruct old; simpl; [auto|].
       destruct (aget ref _); simpl.
-      + intros _ _. apply invc_lookup. rewrite Ep in HI. exact HI.
-      + destruct (memZ ref _); simpl; rewrite Ep in HI; auto.
-    - unfold do_enqueue. destruct (pend s) as [x|] eqn:Ep; auto.
+      + intros _ _. apply invc_lookup. exact HI.
+      + destruct (memZ ref _); simpl; auto.
+    - unfold do_enqueue. destruct (pend s) as [x|] eqn:Ep; [|intros _ _; rewrite Ep; exact HI].
       destruct (soft s) eqn:Es; [rewrite Ep; auto|].
       destruct (nth_error (shards s) _) as [sh|] eqn:En; [|rewrite Ep; auto].
-      pose proof (Hw _ _ En) as Hsh. rewrite Es in Hsh.
+      pose proof (Hw _ _ En) as Hsh.
       destruct Hsh as [H1 [H2 H3]]. destruct (H1 eq_refl) as [Hfl Hex].
       unfold q_append. rewrite H2, Hfl.
       destruct (Nat.eqb _ bsz).
@@ -505,5 +514,238 @@ Section Proofs.
       apply step_inv; auto. apply IH.
       + destruct (lossy (run n0 ops)) eqn:E; auto. rewrite (lossy_mono _ o E) in HL. discriminate.
       + destruct (flushrace (run n0 ops)) eqn:E; auto. rewrite (flushrace_mono _ o E) in HF. discriminate.
+  Qed.
+
+  (* ---------------- ids: positions in the feed ---------------- *)
+
+  Ltac case_step :=
+    repeat match goal with
+           | |- context [match ?x with _ => _ end] => destruct x eqn:?; simpl
+           end.
+
+  Lemma fed_step : forall s o,
+    (fed (step s o) = fed s /\ nextid s <= nextid (step s o))
+    \/ (exists x, fed (step s o) = fed s ++ [x] /\ i_id x = nextid s /\ nextid (step s o) = nextid s + 1).
+  Proof.
+    intros s o. destruct o; simpl;
+      unfold do_store, do_reset, do_lookup, do_enqueue, do_timer, do_send, do_soft, set_tab, set_shards;
+      case_step; try (left; split; [reflexivity | lia]).
+    right. eexists. split; [reflexivity|]. simpl. split; [reflexivity | lia].
+  Qed.
+
+  Definition FedInv (s : st) : Prop :=
+    NoDup (map i_id (fed s)) /\ Forall (fun x => i_id x < nextid s) (fed s).
+
+  Lemma FedInv_run : forall n0 ops, FedInv (run n0 ops).
+  Proof.
+    intros n0 ops. induction ops as [|o ops IH] using rev_ind.
+    - split; simpl; constructor.
+    - rewrite run_snoc. destruct IH as [Hnd Hlt].
+      destruct (fed_step (run n0 ops) o) as [[E1 E2]|[x [E1 [E2 E3]]]].
+      + split; rewrite E1; auto. eapply Forall_impl; [|exact Hlt]. simpl. intros; lia.
+      + split; rewrite E1.
+        * rewrite map_app. simpl. apply NoDup_snoc; auto.
+          intro Hin. apply in_map_iff in Hin. destruct Hin as [y [Ey Hy]].
+          rewrite Forall_forall in Hlt. specialize (Hlt y Hy). lia.
+        * apply Forall_app. split.
+          -- eapply Forall_impl; [|exact Hlt]. simpl. intros; lia.
+          -- constructor; [lia|constructor].
+  Qed.
+
+  (* droppedSamplesTotal accounts for every sample Append did not accept *)
+  Lemma accounting_run : forall n0 ops, let s := run n0 ops in
+    nextid s = Z.of_nat (length (fed s)) + n_old s + n_dropped s + n_unint s.
+  Proof.
+    intros n0 ops. induction ops as [|o ops IH] using rev_ind; [reflexivity|].
+    simpl in *. rewrite run_snoc. remember (run n0 ops) as s. clear Heqs.
+    destruct o; simpl;
+      unfold do_store, do_reset, do_lookup, do_enqueue, do_timer, do_send, do_soft, set_tab, set_shards;
+      case_step; rewrite ?app_length; simpl; try lia.
+  Qed.
+
+  (* ---------------- provenance: what is sent stems from a stored, kept series ---------------- *)
+
+  Definition prov (ops : list op) (x : item) : Prop :=
+    exists raw seg, In (OStore (i_ref x) raw seg) ops /\ relab (add_ext ext raw) = Some (i_lbl x).
+
+  Definition phys (sh : shard) : list item :=
+    infl_list sh ++ concat (q_chan (sh_q sh)) ++ q_batch (sh_q sh).
+
+  Record K (ops : list op) (s : st) : Prop := {
+    k_tab : forall r l, aget r (t_lbl (tab s)) = Some l ->
+            exists raw seg, In (OStore r raw seg) ops /\ relab (add_ext ext raw) = Some l;
+    k_fed : forall x, In x (fed s) -> prov ops x;
+    k_phys : forall sh x, In sh (shards s) -> In x (phys sh) -> In x (fed s);
+    k_log : forall x, In x (attempted (log s)) -> In x (fed s);
+    k_pend : forall x, pend s = Some x -> In x (fed s)
+  }.
+
+  Lemma in_upd : forall A k (f : A -> A) l y, In y (upd k f l) -> In y l \/ exists x, In x l /\ y = f x.
+  Proof.
+    intros A k f l; revert k; induction l as [|a l IH]; intros [|k] y; simpl; auto.
+    - intros [<-|H]; eauto.
+    - intros [<-|H]; auto. destruct (IH _ _ H) as [H'|[x [Hx ->]]]; eauto.
+  Qed.
+
+  Lemma prov_mono : forall ops o x, prov ops x -> prov (ops ++ [o]) x.
+  Proof. intros ops o x [raw [seg [H1 H2]]]. exists raw, seg. split; auto. apply in_or_app; auto. Qed.
+
+  Ltac incl_tac :=
+    unfold phys, infl_list; simpl; intros ?y; rewrite ?concat_app; simpl; rewrite ?app_nil_r;
+    rewrite ?in_app_iff; simpl; rewrite ?app_nil_r; rewrite ?in_app_iff; simpl; tauto.
+
+  Lemma phys_take : forall sh, incl (phys (sh_take sh)) (phys sh).
+  Proof.
+    intros sh. unfold sh_take. destruct (negb (runner_idle sh)) eqn:Ei; [apply incl_refl|].
+    unfold runner_idle in Ei. destruct (sh_exit sh); [discriminate|].
+    destruct (sh_infl sh) eqn:Einf; [discriminate|].
+    unfold q_recv. destruct (q_chan (sh_q sh)) eqn:Ec.
+    - destruct (q_closed (sh_q sh)); [|apply incl_refl]. unfold phys, infl_list; simpl. rewrite Einf, Ec. apply incl_refl.
+    - unfold phys, infl_list; simpl. rewrite Einf, Ec. incl_tac.
+  Qed.
+
+  Lemma phys_timer : forall sh, incl (phys (sh_timer sh)) (phys sh).
+  Proof.
+    intros sh. unfold sh_timer. destruct (negb (runner_idle sh)) eqn:Ei; [apply incl_refl|].
+    unfold runner_idle in Ei. destruct (sh_exit sh); [discriminate|].
+    destruct (sh_infl sh) eqn:Einf; [discriminate|].
+    unfold q_timer. destruct (q_chan (sh_q sh)) as [|b r] eqn:Ec.
+    - destruct (q_closed (sh_q sh)).
+      + unfold phys, infl_list; simpl. rewrite Einf, Ec. apply incl_refl.
+      + destruct (q_batch (sh_q sh)) eqn:Eb; unfold phys, infl_list; simpl; rewrite ?Einf, ?Ec, ?Eb; incl_tac.
+    - destruct b; unfold phys, infl_list; simpl; rewrite ?Einf, ?Ec; incl_tac.
+  Qed.
+
+  Lemma phys_done : forall sh, incl (phys (mkSh (sh_q sh) None (sh_exit sh) (sh_fl sh))) (phys sh).
+  Proof. intros sh. incl_tac. Qed.
+
+  Lemma phys_flushpush : forall sh, incl (phys (sh_flushpush nbq sh)) (phys sh).
+  Proof.
+    intros sh. unfold sh_flushpush. destruct (sh_fl sh); try apply incl_refl.
+    unfold q_tryflush. destruct (q_batch (sh_q sh)) eqn:Eb; [apply incl_refl|].
+    destruct (Nat.ltb _ _); [|apply incl_refl].
+    unfold phys, infl_list; simpl. rewrite Eb. incl_tac.
+  Qed.
+
+  Lemma phys_flushclose : forall sh, incl (phys (sh_flushclose sh)) (phys sh).
+  Proof.
+    intros sh. unfold sh_flushclose. destruct (sh_fl sh); try apply incl_refl. incl_tac.
+  Qed.
+
+  Lemma K_same : forall ops o s s',
+    K ops s -> t_lbl (tab s') = t_lbl (tab s) -> fed s' = fed s -> shards s' = shards s -> log s' = log s -> pend s' = pend s ->
+    K (ops ++ [o]) s'.
+  Proof.
+    intros ops o s s' [K1 K2 K3 K4 K5] E1 E2 E3 E4 E5. split; rewrite ?E1, ?E2, ?E3, ?E4, ?E5; auto.
+    - intros r l H. destruct (K1 r l H) as [raw [seg [A B]]]. exists raw, seg. split; auto. apply in_or_app; auto.
+    - intros x H. apply prov_mono; auto.
+  Qed.
+
+  Lemma K_local : forall ops o s s' k f,
+    K ops s -> t_lbl (tab s') = t_lbl (tab s) -> fed s' = fed s -> shards s' = upd k f (shards s) -> log s' = log s ->
+    pend s' = pend s -> (forall sh, incl (phys (f sh)) (phys sh)) ->
+    K (ops ++ [o]) s'.
+  Proof.
+    intros ops o s s' k f [K1 K2 K3 K4 K5] E1 E2 E3 E4 E5 Hf. split; rewrite ?E1, ?E2, ?E3, ?E4, ?E5; auto.
+    - intros r l H. destruct (K1 r l H) as [raw [seg [A B]]]. exists raw, seg. split; auto. apply in_or_app; auto.
+    - intros x H. apply prov_mono; auto.
+    - intros sh x Hsh Hx. destruct (in_upd _ _ _ _ _ Hsh) as [H|[sh0 [H ->]]].
+      + eapply K3; eauto.
+      + eapply K3; eauto. apply Hf; auto.
+  Qed.
+
+  Lemma attempted_snoc : forall lg b oc, attempted (lg ++ [(b, oc)]) = attempted lg ++ b.
+  Proof. intros. unfold attempted. rewrite flat_map_app. simpl. rewrite app_nil_r. reflexivity. Qed.
+
+  Lemma K_step : forall ops s o, K ops s -> K (ops ++ [o]) (step s o).
+  Proof.
+    intros ops s o HK. pose proof HK as [K1 K2 K3 K4 K5].
+    destruct o as [ref raw seg|idx|ref t old| |k|k|k oc| |k|k| |n]; simpl.
+    - unfold do_store. destruct (relab (add_ext ext raw)) as [l|] eqn:Er.
+      + split; simpl; auto.
+        * intros r l'. destruct (Z.eqb_spec ref r) as [->|Ne].
+          -- intros [= <-]. exists raw, seg. split; auto. apply in_or_app; simpl; auto.
+          -- intros H. destruct (K1 r l' H) as [raw' [seg' [A B]]]. exists raw', seg'. split; auto. apply in_or_app; auto.
+        * intros x H. apply prov_mono; auto.
+      + eapply K_same; eauto.
+    - unfold do_reset. split; simpl; auto.
+      + intros r l.
+        rewrite (aget_filter_key labels
+                   (fun k => negb match aget k (t_seg (tab s)) with Some v => v <? idx | None => false end)).
+        destruct (negb _); [|discriminate].
+        intros H. destruct (K1 r l H) as [raw' [seg' [A B]]]. exists raw', seg'. split; auto. apply in_or_app; auto.
+      + intros x H. apply prov_mono; auto.
+    - unfold do_lookup. destruct (pend s) eqn:Ep; [eapply K_same; eauto|].
+      destruct old; [split; simpl; auto; try discriminate|].
+      { intros r l H. destruct (K1 r l H) as [raw' [seg' [A B]]]. exists raw', seg'. split; auto. apply in_or_app; auto. }
+      { intros x H. apply prov_mono; auto. }
+      destruct (aget ref (t_lbl (tab s))) as [l|] eqn:El.
+      + split; simpl.
+        * intros r l' H. destruct (K1 r l' H) as [raw' [seg' [A B]]]. exists raw', seg'. split; auto. apply in_or_app; auto.
+        * intros x Hx. apply in_app_or in Hx. destruct Hx as [Hx|[<-|[]]]; [apply prov_mono; auto|].
+          destruct (K1 ref l El) as [raw' [seg' [A B]]]. exists raw', seg'. simpl. split; auto. apply in_or_app; auto.
+        * intros sh x Hsh Hx. apply in_or_app. left. eapply K3; eauto.
+        * intros x Hx. apply in_or_app. left. auto.
+        * intros x [= <-]. apply in_or_app. right. simpl; auto.
+      + destruct (memZ ref _); (split; simpl; auto; try discriminate);
+          try (intros r l H; destruct (K1 r l H) as [raw' [seg' [A B]]]; exists raw', seg'; split; auto; apply in_or_app; auto);
+          try (intros x H; apply prov_mono; auto).
+    - unfold do_enqueue. destruct (pend s) as [x|] eqn:Ep; [|eapply K_same; eauto].
+      destruct (soft s); [eapply K_same; eauto|].
+      destruct (nth_error (shards s) _) as [sh|] eqn:En; [|eapply K_same; eauto].
+      assert (Hx : In x (fed s)) by (apply K5; auto).
+      assert (Hsh : In sh (shards s)) by (eapply nth_error_In; eauto).
+      destruct (q_append bsz nbq (sh_q sh) x) as [q' res] eqn:Eq.
+      destruct res; [|eapply K_same; eauto|eapply K_same; eauto].
+      assert (Hq : incl (concat (q_chan q') ++ q_batch q') ((concat (q_chan (sh_q sh)) ++ q_batch (sh_q sh)) ++ [x])).
+      { unfold q_append in Eq. destruct (q_closed (sh_q sh)); [discriminate|].
+        destruct (Nat.eqb _ bsz).
+        - destruct (Nat.ltb _ nbq); [|discriminate]. inversion Eq; subst; simpl.
+          intros y. rewrite concat_app. simpl. rewrite !in_app_iff. simpl. rewrite !in_app_iff. simpl. tauto.
+        - inversion Eq; subst; simpl. intros y. rewrite !in_app_iff. simpl. tauto. }
+      split; simpl; auto; try discriminate.
+      + intros r l H. destruct (K1 r l H) as [raw' [seg' [A B]]]. exists raw', seg'. split; auto. apply in_or_app; auto.
+      + intros y H. apply prov_mono; auto.
+      + intros sh' y Hin Hy. destruct (in_upd _ _ _ _ _ Hin) as [H|[sh0 [H ->]]]; [eapply K3; eauto|].
+        unfold phys, infl_list in Hy. simpl in Hy. apply in_app_or in Hy. destruct Hy as [Hy|Hy].
+        * eapply K3; eauto. unfold phys, infl_list. apply in_or_app; auto.
+        * apply Hq in Hy. apply in_app_or in Hy. destruct Hy as [Hy|[<-|[]]]; auto.
+          (* the updated shard is the one at index k, but in_upd only says some shard: f ignores h's queue *)
+          eapply (K3 sh); eauto. unfold phys. apply in_or_app; right; auto.
+    - eapply K_local; eauto; simpl; auto. apply phys_take.
+    - eapply K_local; eauto; simpl; auto. apply phys_timer.
+    - unfold do_send. destruct (nth_error (shards s) k) as [sh|] eqn:En; [|eapply K_same; eauto].
+      destruct (sh_infl sh) as [b|] eqn:Ei; [|eapply K_same; eauto].
+      assert (Hb : forall y, In y b -> In y (fed s)).
+      { intros y Hy. eapply (K3 sh); eauto. eapply nth_error_In; eauto.
+        unfold phys, infl_list. rewrite Ei. apply in_or_app; auto. }
+      assert (Hl : forall oc y, In y (attempted (log s ++ [(b, oc)])) -> In y (fed s)).
+      { intros oc y. rewrite attempted_snoc. intros Hy. apply in_app_or in Hy. destruct Hy; auto. }
+      destruct oc; (split; simpl; eauto);
+        try (intros r l H; destruct (K1 r l H) as [raw' [seg' [A B]]]; exists raw', seg'; split; auto; apply in_or_app; auto);
+        try (intros y H; apply prov_mono; auto);
+        try (intros sh' y Hin Hy; destruct (in_upd _ _ _ _ _ Hin) as [H|[sh0 [H ->]]]; [eapply K3; eauto|];
+             eapply K3; eauto; apply (phys_done sh0); auto).
+    - eapply K_same; eauto.
+    - destruct (soft s); [|eapply K_same; eauto]. eapply K_local; eauto; simpl; auto. apply phys_flushpush.
+    - destruct (soft s); [|eapply K_same; eauto]. eapply K_local; eauto; simpl; auto. apply phys_flushclose.
+    - destruct (soft s && negb (all_exited (shards s))); [|eapply K_same; eauto].
+      split; simpl; auto.
+      + intros r l H. destruct (K1 r l H) as [raw' [seg' [A B]]]. exists raw', seg'. split; auto. apply in_or_app; auto.
+      + intros y H. apply prov_mono; auto.
+      + intros sh y Hin. apply in_map_iff in Hin. destruct Hin as [sh0 [<- _]]. simpl. tauto.
+    - destruct (soft s && all_exited (shards s) && Nat.ltb 0 n); [|eapply K_same; eauto].
+      split; simpl; auto.
+      + intros r l H. destruct (K1 r l H) as [raw' [seg' [A B]]]. exists raw', seg'. split; auto. apply in_or_app; auto.
+      + intros y H. apply prov_mono; auto.
+      + intros sh y Hin. apply repeat_spec in Hin. subst. simpl. tauto.
+  Qed.
+
+  Lemma K_run : forall n0 ops, K ops (run n0 ops).
+  Proof.
+    intros n0 ops. induction ops as [|o ops IH] using rev_ind.
+    - split; simpl; try tauto; try discriminate.
+      intros sh x Hin. apply repeat_spec in Hin. subst. simpl. tauto.
+    - rewrite run_snoc. apply K_step; auto.
   Qed.
 End Proofs.
